@@ -413,12 +413,22 @@ def run_kani(package, harness_filter, obs_by_harness, jobs=None, timeout=3600, e
     os.makedirs(os.path.dirname(log), exist_ok=True)
     with open(log, "w") as lf:
         p = subprocess.Popen(cmd, stdout=lf, stderr=subprocess.STDOUT, cwd=WS, env=KANI_ENV)
-        try:
-            rc = p.wait(timeout=timeout)
-        except subprocess.TimeoutExpired:
-            p.kill()
-            rc = 124
-            _kill_stray_cbmc()
+        killed = []
+        tend = time.time() + timeout
+        rc = None
+        while rc is None:
+            try:
+                rc = p.wait(timeout=10)
+            except subprocess.TimeoutExpired:
+                # Kani's --harness-timeout does not reliably stop a CBMC that is deep in the SAT solver: watchdog
+                killed += _cbmc_watchdog(harness_timeout * 1.3 + 30)
+                if time.time() > tend:
+                    p.kill()
+                    rc = 124
+                    _kill_stray_cbmc()
+    if killed:
+        with open(log, "a") as lf:
+            lf.write("\nWATCHDOG killed cbmc: %s\n" % ", ".join(killed))
     with open(log, errors="replace") as lf:
         out = lf.read()
     if rc == 124:
@@ -447,6 +457,52 @@ def run_kani(package, harness_filter, obs_by_harness, jobs=None, timeout=3600, e
             ob.status = "undecided"
             ob.detail = ob.detail or "harness was not run (missing from kani output)"
     return res
+
+
+def _cbmc_watchdog(max_age, max_rss_kb=14 * 1024 * 1024, min_avail_kb=8 * 1024 * 1024):
+    """kill CBMC processes of the mirror workspace that outlive the harness timeout, exceed the per-process memory
+    cap, or (largest first) when the machine runs out of memory; the harness then has no verdict (undecided)."""
+    import signal
+    procs = []
+    hz = os.sysconf("SC_CLK_TCK")
+    try:
+        up = float(open("/proc/uptime").read().split()[0])
+    except Exception:
+        return []
+    for pid in os.listdir("/proc"):
+        if not pid.isdigit():
+            continue
+        try:
+            if open("/proc/%s/comm" % pid).read().strip() != "cbmc":
+                continue
+            cl = open("/proc/%s/cmdline" % pid, "rb").read().decode("utf8", "replace")
+            if BUILD not in cl:
+                continue
+            st = open("/proc/%s/stat" % pid).read().rsplit(")", 1)[1].split()
+            age = up - int(st[19]) / hz
+            rss = int(st[21]) * (os.sysconf("SC_PAGE_SIZE") // 1024)
+            m = re.search(r"(vk\w+)\.out", cl)
+            procs.append((int(pid), age, rss, m.group(1) if m else "?"))
+        except Exception:
+            continue
+    avail = 1 << 40
+    try:
+        for ln in open("/proc/meminfo"):
+            if ln.startswith("MemAvailable:"):
+                avail = int(ln.split()[1])
+    except Exception:
+        pass
+    victims = [x for x in procs if x[1] > max_age or x[2] > max_rss_kb]
+    if avail < min_avail_kb and procs:
+        victims.append(max(procs, key=lambda x: x[2]))
+    out = []
+    for pid, age, rss, h in {v[0]: v for v in victims}.values():
+        try:
+            os.kill(pid, signal.SIGKILL)
+            out.append("%s (age %.0fs, rss %.1f GB)" % (h, age, rss / 1048576.0))
+        except Exception:
+            pass
+    return out
 
 
 def split_kani_blocks(out):
